@@ -30,16 +30,26 @@ def repo_hash():
     return _repo_hash
 
 def cfg_parts(cfgname):
-    """cfgname: <base>[:p<policy>] e.g. back, mp11_fct, back:p2"""
+    """cfgname: <base>[@<frontend>][:p<policy>] e.g. back, mp11_fct, back:p2, back@basic, mp11@row2:p1"""
     base, _, rest = cfgname.partition(":")
+    base = base.partition("@")[0]
     pol = int(rest[1:]) if rest.startswith("p") else 0
     be, fct, traits = msmgen.CFGS[base]
     return base, be, fct, traits, pol
 
+def frontend_of(cfgname):
+    fe = cfgname.partition(":")[0].partition("@")[2]
+    return fe or "functor"
+
+def blank_obs(blocks):
+    """row2 behaviours that are members of a state do not see the machine: the ids they would observe are not compared"""
+    import re
+    return [[re.sub(r" \[[^\]]*\]$", " [?]", l) if l[:2] in ("G0", "G1", "A ") else l for l in b] for b in blocks]
+
 def build_binary(md, cfgname, extra_flags=()):
     """compile (or fetch from the cache) the harness binary of md under cfgname; returns (path, seconds, error)"""
     base, be, fct, traits, pol = cfg_parts(cfgname)
-    src = msmgen.gen_cxx(md, policy=pol, introspect="-DH_INTROSPECT" in extra_flags)
+    src = msmgen.gen_cxx(md, policy=pol, introspect="-DH_INTROSPECT" in extra_flags, frontend=frontend_of(cfgname))
     key = hashlib.sha256((repo_hash() + cfgname + " ".join(extra_flags) + src).encode()).hexdigest()[:24]
     d = os.path.join(CACHE, repo_hash())
     os.makedirs(d, exist_ok=True)
@@ -137,6 +147,8 @@ def compare(md, cfgname, ops, exe=None):
         return {"ok": True, "impl": [], "model": split_ops(model_out), "bad": True, "rc": 0, "root_lib": root_lib}
     impl_out, rc = run_impl(exe, ops)
     bi, bm = split_ops(impl_out), split_ops(model_out)
+    if frontend_of(cfgname) == "row2":
+        bi, bm = blank_obs(bi), blank_obs(bm)
     res = {"ok": True, "impl": bi, "model": bm, "bad": any(l.startswith("BAD") for b in bm for l in b), "rc": rc,
            "root_lib": root_lib, "impl_raw": split_ops(impl_out, True), "ids": ids}
     if res["bad"]:
